@@ -45,7 +45,8 @@ ASSUMPTIONS = ['items are truthy and distinct objects (the producer treats a fal
                'the pipeline has at least one task',
                'stop()/concurrency are called between task steps (a call from inside a task body is equivalent to a call right after that step)',
                'stop() before the first step of process() is not a stop request of the running pipeline (state is still "stopped": no-op in the code)']
-UNPROVED = []
+UNPROVED = ['finiteness of every run with finitely many stop()/concurrency calls (no livelock: a measure decreasing on every '
+            'internal step) is not a theorem yet; absence of deadlock/hang in every reachable quiescent state is (no_hang)']
 
 FIX_ALL = os.environ.get('C13_FIX', 'TTTTT')
 MAX_ACTIONS = 400
@@ -299,7 +300,7 @@ class Real:
         return st + ';' + self.main_status() + ';' + ''.join(self.enabled())
 
 
-def run_real(n, k, conc, src_fail, policy_or_actions, rng=None, inj=None):
+def run_real(n, k, conc, src_fail, policy_or_actions, rng=None, inj=None, cont=None):
     """Run the real pipeline.  `policy_or_actions` is either a list of actions (replay) or a policy name;
     returns dict(actions, steps=[(events, digest)], …)."""
     real = Real(n, k, conc, src_fail)
@@ -314,10 +315,14 @@ def run_real(n, k, conc, src_fail, policy_or_actions, rng=None, inj=None):
         for step_no in range(MAX_ACTIONS):
             if real.main.done():
                 break
-            if fixed is not None:
+            if fixed is not None and (step_no < len(fixed) or cont is None):
                 if step_no >= len(fixed):
                     break
                 a = fixed[step_no]
+            elif fixed is not None:
+                a = choose_action(real, cont, rng, step_no, {}, 0)
+                if a is None:
+                    break
             else:
                 a = choose_action(real, policy, rng, step_no, inj, n_inj)
                 if a is None:
@@ -654,7 +659,9 @@ def replay(ctx, case, kind=None, where=None):
         oracle(ctx, case, res)
         return
     base = {kk: case[kk] for kk in ('n', 'k', 'conc', 'src_fail')}
-    res = run_real(case['n'], case['k'], case['conc'], case['src_fail'], list(case['actions']))
+    import random
+    res = run_real(case['n'], case['k'], case['conc'], case['src_fail'], list(case['actions']),
+                   rng=random.Random(case.get('then_seed', 0)), cont=case.get('then'))
     check_cases(ctx, [(base, res)], tags=['replay'])
 
 
@@ -663,20 +670,20 @@ def run(ctx):
     for case in load_corpus(ctx):
         replay(ctx, case)
     rng = ctx.rng
-    batch = gen_random(ctx, rng, ctx.scale(600, 12000))
+    batch = gen_random(ctx, rng, ctx.scale(4000, 60000))
     check_cases(ctx, batch)
     for c, r in batch[:3]:
         ctx.sample(dict(c, actions=r['actions'], end=r['main']))
-    free_run(ctx, ctx.subrng('free'), ctx.scale(300, 6000))
+    free_run(ctx, ctx.subrng('free'), ctx.scale(2000, 30000))
     # exhaustive small scopes
-    scopes = [(1, 1, 1), (2, 1, 1)] if not thorough else \
+    scopes = [(1, 1, 1), (2, 1, 1), (1, 2, 2)] if not thorough else \
              [(n, k, c) for n in (0, 1, 2, 3) for k in (1, 2) for c in (0, 1, 2) if n * k <= 4]
     complete = True
     total = 0
     for (n, k, c) in scopes:
         for inject in ([None, 'S'] if not thorough else [None, 'S', 'C0', 'C2', 'X']):
             for sf in ([False] if not thorough else [False, True]):
-                lim = ctx.scale(150, 2500)
+                lim = ctx.scale(400, 4000)
                 res, whole = enumerate_scope(ctx, n, k, c, sf, inject, lim)
                 complete = complete and whole
                 total += len(res)
